@@ -4,9 +4,11 @@ package main
 // shapes). Each sweep is one obligation discharged by the engine itself.
 
 import (
+	"fmt"
 	"go/ast"
 	"go/types"
 	"sort"
+	"strings"
 )
 
 type Sweep struct {
@@ -70,4 +72,132 @@ func (p *Program) mapRangeFuncs() []string {
 	}
 	sort.Strings(out)
 	return out
+}
+
+// ---------------------------------------------------------------------------
+// C17 / C15: file-system writers
+
+var fsWriters = map[string]bool{
+	"os.WriteFile": true, "os.MkdirAll": true, "os.Mkdir": true, "os.Create": true, "os.OpenFile": true,
+	"os.Remove": true, "os.RemoveAll": true, "os.Rename": true, "os.Truncate": true, "os.Chmod": true,
+	"os.Symlink": true, "os.Link": true, "os.CreateTemp": true, "os.MkdirTemp": true, "os.Chdir": true,
+	"io/ioutil.WriteFile": true, "io/ioutil.TempFile": true, "io/ioutil.TempDir": true,
+	"os.File.Write": true, "os.File.WriteString": true, "os.File.Truncate": true, "os.File.WriteAt": true,
+	"os/exec.Command": true, "os/exec.CommandContext": true,
+}
+
+// extCalls enumerates calls of functions outside the module: (function key of caller, ext key, position)
+func (p *Program) extCalls(visit func(fi *FuncInfo, callee *types.Func, call *ast.CallExpr)) {
+	var keys []string
+	for k := range p.Funcs {
+		keys = append(keys, k)
+	}
+	sort.Strings(keys)
+	for _, k := range keys {
+		fi := p.Funcs[k]
+		ast.Inspect(fi.Decl.Body, func(n ast.Node) bool {
+			if ce, ok := n.(*ast.CallExpr); ok {
+				if c := calleeOf(fi.Pkg.TypesInfo, ce); c != nil {
+					visit(fi, c, ce)
+				}
+			}
+			return true
+		})
+	}
+}
+
+func sweepFSWriters(prog *Program) Sweep {
+	s := Sweep{Name: "sweep.C17.fs-writers-only-in-writeFiles", Detail: "every call of a file-system writer (os.WriteFile, os.MkdirAll, os.Create, ... " + fmt.Sprint(len(fsWriters)) + " functions) in non-test code of the module is inside goverter.writeFiles"}
+	prog.extCalls(func(fi *FuncInfo, c *types.Func, ce *ast.CallExpr) {
+		if c.Pkg() == nil || strings.HasPrefix(c.Pkg().Path(), modPath) {
+			return
+		}
+		s.Sites++
+		if fsWriters[extKey(c)] && fi.Key != "goverter.writeFiles" {
+			s.Offenders = append(s.Offenders, fmt.Sprintf("%s calls %s at %s", fi.Key, extKey(c), prog.Fset.Position(ce.Pos())))
+		}
+	})
+	s.Status = "discharged"
+	if len(s.Offenders) > 0 {
+		s.Status = "failed"
+	}
+	return s
+}
+
+func sweepWriteFilesCallers(prog *Program) Sweep {
+	s := Sweep{Name: "sweep.C17.writeFiles-called-only-from-GenerateConverters", Detail: "goverter.writeFiles has exactly one caller in the module: goverter.GenerateConverters (whose contract asserts err == nil at that call)"}
+	for k, fi := range prog.Funcs {
+		ast.Inspect(fi.Decl.Body, func(n ast.Node) bool {
+			switch e := n.(type) {
+			case *ast.CallExpr:
+				if c := calleeOf(fi.Pkg.TypesInfo, e); c != nil && funcKeyOfObj(c) == "goverter.writeFiles" {
+					s.Sites++
+					if k != "goverter.GenerateConverters" {
+						s.Offenders = append(s.Offenders, k+" calls writeFiles")
+					}
+				}
+			case *ast.Ident:
+				// writeFiles used as a value
+				if f, ok := fi.Pkg.TypesInfo.Uses[e].(*types.Func); ok && funcKeyOfObj(f) == "goverter.writeFiles" {
+					if !isCallee(fi.Decl.Body, e) {
+						s.Offenders = append(s.Offenders, k+" takes the address of writeFiles")
+					}
+				}
+			}
+			return true
+		})
+	}
+	s.Status = "discharged"
+	if len(s.Offenders) > 0 || s.Sites != 1 {
+		s.Status = "failed"
+		if s.Sites != 1 {
+			s.Offenders = append(s.Offenders, fmt.Sprintf("expected exactly 1 call site, found %d", s.Sites))
+		}
+	}
+	return s
+}
+
+func isCallee(body ast.Node, id *ast.Ident) bool {
+	found := false
+	ast.Inspect(body, func(n ast.Node) bool {
+		if ce, ok := n.(*ast.CallExpr); ok && ast.Unparen(ce.Fun) == ast.Expr(id) {
+			found = true
+		}
+		return true
+	})
+	return found
+}
+
+// exit codes in cli.Run: os.Exit is called with the constants 1, 0, 1 (parse error, help, generation error)
+func sweepExitCodes(prog *Program) Sweep {
+	s := Sweep{Name: "sweep.C17.exit-codes", Detail: "os.Exit is called only in cli.Run, with constant arguments [1 0 1] in source order (usage error, help, generation error)"}
+	var codes []string
+	prog.extCalls(func(fi *FuncInfo, c *types.Func, ce *ast.CallExpr) {
+		if extKey(c) != "os.Exit" {
+			return
+		}
+		s.Sites++
+		if fi.Key != "cli.Run" {
+			s.Offenders = append(s.Offenders, fi.Key+" calls os.Exit")
+			return
+		}
+		tv := fi.Pkg.TypesInfo.Types[ce.Args[0]]
+		if tv.Value == nil {
+			s.Offenders = append(s.Offenders, "non-constant exit code in cli.Run")
+			return
+		}
+		codes = append(codes, tv.Value.ExactString())
+	})
+	if strings.Join(codes, " ") != "1 0 1" {
+		s.Offenders = append(s.Offenders, "exit codes in cli.Run are ["+strings.Join(codes, " ")+"], expected [1 0 1]")
+	}
+	s.Status = "discharged"
+	if len(s.Offenders) > 0 {
+		s.Status = "failed"
+	}
+	return s
+}
+
+func init() {
+	sweepTable["C17"] = []sweepFn{sweepFSWriters, sweepWriteFilesCallers, sweepExitCodes}
 }
